@@ -190,6 +190,10 @@ def validate_trace(ctx, family, module, cfg, trace_path, timeout=300, extra_file
         tail = "\n".join(txt.splitlines()[-30:])
         raise Inconclusive("trace spec %s did not run: %s" % (module, tail))
     log("[trace] %s: accepted=%s matched=%s/%s states=%d %.1fs" % (module, accepted, matched, total, dist, time.time() - t0))
+    # TLC wraps a long <<"MISMATCH", n, "kind">> tuple over several lines: every reported mismatch must be parseable by
+    # the checks' (white-space tolerant) pattern, otherwise a mismatch would be dropped silently
+    if txt.count('"MISMATCH"') != len(re.findall(r'<<\s*"MISMATCH",\s*\d+,\s*"[^"]+"\s*>>', txt)):
+        raise Inconclusive("unparsed MISMATCH lines in the TLC output of %s" % module)
     return dict(accepted=accepted, matched=matched, total=total, out=outp, violated=violated,
                 generated=gen, distinct=dist, wall_s=round(time.time() - t0, 2), text=txt)
 
